@@ -108,7 +108,8 @@ def gen_field(rng, name, unique_vals=True):
             text += "# inner\n"
         text += rng.choice(CONT)
     if rng.random() < 0.3:
-        text = "# about %s\n" % name + text
+        # (comment lines may end in blanks or a tab: they are text like any other)
+        text = rng.choice(["# about %s\n", "# about %s  \n#\t\n", "#about %s\t\n"]) % name + text
     return text
 
 
